@@ -68,7 +68,7 @@ def replay_both(harness, values, features=()):
     return {"dev": dev, "release": rel, "reproduced": reproduced}
 
 
-def run_files(files, entry, profile="dev"):
+def run_files(files, entry, profile="dev", compressed=False):
     """Write `files` ({relative name: text}) to a scratch directory and compile `entry` from disk."""
     import shutil
     import tempfile
@@ -81,7 +81,7 @@ def run_files(files, entry, profile="dev"):
             with open(p, "w") as f:
                 f.write(text)
         try:
-            p = subprocess.run([exe, "--scss-file", os.path.join(d, entry)], capture_output=True, text=True, timeout=120)
+            p = subprocess.run([exe, "--scss-file-compressed" if compressed else "--scss-file", os.path.join(d, entry)], capture_output=True, text=True, timeout=120)
         except subprocess.TimeoutExpired:
             return {"outcome": "crash", "message": "timeout"}
         for line in p.stdout.split("\n"):
